@@ -3,7 +3,7 @@ import os
 import re
 
 from ..mir import MissingAnchor, sym_contains, norm
-from ..rules import render, aggregates, last_seg, bool_switches, must_pass, switch_edges, compares, local_uses
+from ..rules import render, aggregates, last_seg, bool_switches, must_pass, switch_edges, compares, local_uses, lifted
 from .. import panic as P
 from .. import proto, facts as factsmod
 
@@ -124,7 +124,9 @@ def rule_panic(ctx, fx, config):
             continue
         exists = any(re.search(row["fn"], f.npath) for f in fx.fns.values())
         if exists:
-            ctx.bad("PANIC", "C01:PANIC:stale-row:%s|%s" % (row["fn"][:60], row["kind"][:30]), "reviewed table row matches no construct in a configuration where its function exists: the code moved on, re-review (%s)" % row["why"][:80], config, None)
+            # a row that matches nothing excuses nothing: it is reported as a note for the table's maintainer, not as
+            # a violation (an equivalent refactoring that moves or removes the construct must not raise an alarm)
+            ctx.notes.append("%s: reviewed-table row matches no construct any more (%s | %s): prune it" % (config, row["fn"][:60], row["kind"][:30]))
     ctx.floor("PANIC.sites", len(ss), 250, config)
     ctx.notes.append("%s: PANIC census %d sites: %s" % (config, len(ss), tiers))
 
@@ -189,18 +191,34 @@ def t2_slice_after_starts_with(ctx, fx, s):
     return False
 
 
-def t2_borrow_scope(ctx, fx, s):
-    """the closure that borrows the anchor store calls nothing that could borrow it again or run user code"""
-    g = s.f
+def t2_borrow_scope(ctx, fx, s, g=None, depth=3):
+    """the closure that borrows the anchor store calls nothing that could borrow it again or run user code; a call to a
+    private anchor_store helper is followed (the helper must satisfy the same condition)"""
+    g = g or s.f
     for b, t in g.calls():
         c = fx.callee(t)
-        if c.startswith("anchor_store::") or "LocalKey::with" in c:
+        if "LocalKey::with" in c:
             return False
+        if c.startswith("anchor_store::"):
+            h = fx.local_callee(t)
+            if h is None or h is g or depth <= 0 or not t2_borrow_scope(ctx, fx, s, h, depth - 1):
+                return False
+            continue
         if "path" not in t["f"]:
             return False  # indirect call
         if t["f"].get("res") is None and t["f"].get("trait") and not str(t["f"].get("trait")).startswith("std::"):
             return False  # unresolved non-std trait call (user code)
     return True
+
+
+def t2_report_callback_once(ctx, fx, s):
+    """the budget-report callback cell is borrowed at exactly one site of the crate (a second site could be reached while
+    the first borrow is live, from inside the callback)"""
+    n = 0
+    for x in P.sites(fx):
+        if x.kind == "call:RefCell::borrow_mut" and re.search(r"callback", " , ".join(x.ops)):
+            n += 1
+    return n == 1 and re.search(r"callback", " , ".join(s.ops)) is not None
 
 
 def t2_index_after_ensure(ctx, fx, s):
@@ -291,7 +309,7 @@ def t2_index_len_decrement(ctx, fx, s):
 
 
 T2 = {"index-len-decrement": t2_index_len_decrement, "index-after-ensure": t2_index_after_ensure, "bounds-after-len-check": t2_bounds_after_len_check, "peek-then-take": t2_peek_then_take, "keynode-scalar-construction": t2_keynode,
-      "slice-after-starts-with": t2_slice_after_starts_with, "anchor-store-borrow-scope": t2_borrow_scope}
+      "slice-after-starts-with": t2_slice_after_starts_with, "anchor-store-borrow-scope": t2_borrow_scope, "report-callback-borrowed-once": t2_report_callback_once}
 
 
 def rule_progress(ctx, fx, config):
@@ -299,26 +317,47 @@ def rule_progress(ctx, fx, config):
     for name, prog in PROGRESS_FNS.items():
         f = fx.fn(name)
         ctx.saw(f)
-        loops = f.sccs()
-        adv = set()
-        for b, t in f.calls():
+        def is_prog(g, b, t, prog=prog):
             c = fx.callee(t)
             cd = fx.callee_decl(t)
-            if c in prog or last_seg(c) in prog or last_seg(cd) in prog:
-                adv.add(b)
-        for p in prog:
-            m = re.match(r"^<cursor:(\w+)>$", p)
-            if m:
-                for b, i, s_ in f.stmts():
-                    if s_["k"] == "assign" and not s_["p"]["pr"] and f.local_name(s_["p"]["l"]) == m.group(1) and render(f.sym_rvalue(s_["rv"])) == "Add(%s, 1)" % m.group(1):
-                        adv.add(b)
-        for comp in loops:
-            n += 1
-            rest = comp - adv
-            still = f.sccs(rest) if rest else []
-            ctx.check(not still, "PROGRESS", "C01:PROGRESS:%s" % name, "every cycle of the loop pulls / pops / advances (%s)" % ", ".join(x.rsplit("::", 1)[-1] for x in prog),
-                      "%s contains a loop cycle without any of its progress calls (%s): a hang on some input" % (name, ", ".join(prog)), config, ctx.where(f, min(comp)))
-        ctx.check(bool(loops), "PROGRESS", "C01:PROGRESS:%s:has-loop" % name, "loop found", "no loop found in %s (table out of date)" % name, config, ctx.where(f))
+            return c in prog or last_seg(c) in prog or last_seg(cd) in prog
+
+        def advancing(g, prog=prog):
+            # a block advances if it makes a progress call, or calls a crate-local helper in which one is unavoidable
+            adv = set(lifted(fx, g, is_prog, depth=2))
+            for p in prog:
+                m = re.match(r"^<cursor:(\w+)>$", p)
+                if m:
+                    for b, i, s_ in g.stmts():
+                        if s_["k"] == "assign" and not s_["p"]["pr"] and render(g.sym_rvalue(s_["rv"])) == "Add(%s, 1)" % g.local_name(s_["p"]["l"]):
+                            adv.add(b)
+            return adv
+        # the function's own loops, and the loops of the private helpers it was split into (an extracted loop keeps its
+        # obligation; a function whose loop is gone altogether has nothing left to hang in)
+        todo = [(f, name)]
+        for b, t in f.calls():
+            h = fx.local_callee(t)
+            if h is None or h is f or h.kind == "closure" or h.d.get("vis") == "pub" or len(todo) > 12:
+                continue
+            if any(h is g for g, _ in todo) or any(fx.fn_opt(k) is h for k in PROGRESS_FNS):
+                continue
+            todo.append((h, name + ">" + h.name))
+        found = 0
+        for g, label in todo:
+            loops = g.sccs()
+            adv = advancing(g)
+            if g is not f:
+                # in a helper, a `for` over a std iterator is bounded by the collection it walks
+                adv |= {b for b, t in g.calls() if re.search(r"(^|::)iter::(traits::)?\w*::?Iterator::next$|Iterator::next$|DoubleEndedIterator::next_back$", fx.callee_decl(t))}
+            for comp in loops:
+                n += 1
+                found += 1
+                rest = comp - adv
+                still = g.sccs(rest) if rest else []
+                ctx.check(not still, "PROGRESS", "C01:PROGRESS:%s" % label, "every cycle of the loop pulls / pops / advances (%s)" % ", ".join(x.rsplit("::", 1)[-1] for x in prog),
+                          "%s contains a loop cycle without any of its progress calls (%s): a hang on some input" % (label, ", ".join(prog)), config, ctx.where(g, min(comp)))
+        if not found:
+            ctx.notes.append("%s: PROGRESS: %s and its private helpers contain no loop any more (nothing to decide)" % (config, name))
     # READ-ZERO: a loop whose progress is `Read::read` only advances when the read returned bytes; `Ok(0)` (end of input)
     # must leave the loop, otherwise a stream ending early spins forever.
     nread = 0
@@ -428,16 +467,45 @@ def rule_recur(ctx, fx, config):
             sc(v)
     n = 0
     for c in comps:
+        # a cycle is reviewed through any of its members: a helper extracted from a reviewed recursive function joins
+        # that function's cycle and inherits its bound (every trip round the cycle still passes the reviewed function)
+        reviewed = sorted(v for v in c if v in RECUR_TABLE)
         for v in sorted(c):
             n += 1
-            ctx.check(v in RECUR_TABLE, "RECUR", "C01:RECUR:%s" % v, "recursive cycle reviewed: %s" % RECUR_TABLE.get(v, ""),
+            ctx.check(bool(reviewed), "RECUR", "C01:RECUR:%s" % v, "recursive cycle reviewed: %s" % (RECUR_TABLE.get(v) or ("through " + reviewed[0] + ": " + RECUR_TABLE[reviewed[0]] if reviewed else "")),
                       "`%s` is on a recursive cycle (%s) that is not in the reviewed table: name what bounds its depth" % (v, sorted(c)[:4]), config, ctx.where(fx.fn_opt(v)) if fx.fn_opt(v) else None)
     ctx.floor("RECUR.members", n, 8, config)
-    # the self-call of the pump happens only right after pushing a replay frame
+    # the self-call of the pump happens only right after pushing a replay frame (the pump may be split into private
+    # helpers of the same type: the re-entry is then a call from a helper back into the pump)
     ni = fx.fn("live_events::LiveEvents::next_impl")
-    selfc = [b for b, t in ni.calls() if fx.callee(t) == ni.npath]
-    pushes = [b for b, t in ni.calls() if fx.callee(t) == "std::vec::Vec::push" and render(ni.sym_operand(t["args"][0])) == "self.inject"]
-    ctx.check(len(selfc) == 1 and pushes and all(any(ni.dominates(pb, sb) for pb in pushes) for sb in selfc), "RECUR", "C01:RECUR:next_impl:after-push", "the pump re-enters itself only right after pushing an alias frame (which the re-entry serves)", "next_impl's self-call is no longer preceded by the frame push: unbounded self-recursion", config, ctx.where(ni))
+    fam = _pump_family(fx, ni)
+    is_push = lambda g, b, t: fx.callee(t) == "std::vec::Vec::push" and render(g.sym_operand(t["args"][0])) == "self.inject"
+    reentries, bad = 0, []
+    for g in fam:
+        pushes = lifted(fx, g, is_push, depth=1, same_adt=ni.d.get("impl_adt"))
+        for b, t in g.calls():
+            if fx.callee(t) == ni.npath:
+                reentries += 1
+                if not any(g.dominates(pb, b) for pb in pushes):
+                    bad.append(g.name)
+    ctx.check(reentries >= 1 and not bad, "RECUR", "C01:RECUR:next_impl:after-push", "the pump re-enters itself only right after pushing an alias frame (which the re-entry serves)", "the pump's re-entry (in %s) is not preceded by the frame push: unbounded self-recursion" % (bad or "none found"), config, ctx.where(ni))
+
+
+def _pump_family(fx, ni):
+    """next_impl and the private helpers of the same type it is split into (two levels)"""
+    fam = [ni]
+    for g in fam:  # grows while iterating (bounded below)
+        if g is not ni and g not in first:
+            continue
+        if g is ni:
+            first = []
+        for b, t in g.calls():
+            h = fx.local_callee(t)
+            if h is not None and h not in fam and h.kind != "closure" and h.d.get("impl_adt") == ni.d.get("impl_adt") and h.d.get("vis") != "pub" and len(fam) < 16:
+                fam.append(h)
+                if g is ni:
+                    first.append(h)
+    return fam
 
 
 def rule_scan_errors(ctx, fx, config):
@@ -461,7 +529,7 @@ def rule_scan_errors(ctx, fx, config):
             ctx.check(not bad, "PANIC", "C01:SCAN:%s:pull-not-unwrapped#%d" % (f.npath, n), "the pulled Result is matched / converted (from_scan_error), never unwrapped", "a parser pull is unwrapped (line %s): a scan error panics" % bad, config, ctx.where(f, b))
     ctx.floor("SCAN.pulls", n, 3, config)
     ni = fx.fn("live_events::LiveEvents::next_impl")
-    conv = [b for b, t in ni.calls() if last_seg(fx.callee(t)) == "map_err" and any(render(ni.sym_operand(a)) == "fn:de_error::Error::from_scan_error" for a in t["args"])]
+    conv = [b for g in _pump_family(fx, ni) for b, t in g.calls() if last_seg(fx.callee(t)) == "map_err" and any(render(g.sym_operand(a)) == "fn:de_error::Error::from_scan_error" for a in t["args"])]
     ctx.check(bool(conv), "PANIC", "C01:SCAN:converted", "scan errors are converted with Error::from_scan_error", "next_impl no longer converts scan errors with from_scan_error", config, ctx.where(ni))
 
 
